@@ -11,6 +11,7 @@ verus! {
 //@include shims/asref.rs
 //@include shims/digest.rs
 //@include shims/aes.rs
+//@include shims/codecs.rs
 //@include shims/k256.rs
 //@enum AESAlgorithms @ src/encryption/mod.rs clone copy
 pub struct AES;
